@@ -3,6 +3,7 @@ use crate::alphabet::AlphaCfg;
 use crate::alphabet::actions;
 use crate::props::e1::*;
 use crate::stf::*;
+use crate::world::{out_t, tx_t};
 use crate::report::Run;
 use melstructs::{Denom, NetID, PoolKey};
 use serde_json::json;
@@ -84,7 +85,49 @@ fn custom_pool_withdrawals(run: &Run, thorough: bool) {
     println!("  scenario custom-pool-withdrawals: depth {} states {} transitions {}", st.depth_completed, st.states, st.transitions);
 }
 
+/// Liquidity tokens of the built-in pools that the pools never issued (a faucet can mint any denomination off mainnet):
+/// withdrawals that, alone or together in one block, claim all of a built-in pool's recorded liquidity.
+fn unissued_liquidity_tokens(run: &Run, thorough: bool) {
+    let (_w, rootn) = root(NetID::Custom02, 0, true);
+    let mut eng = Engine::new(run);
+    // the faucet below breaks the backing invariant by construction (faucets are not among the histories C16 quantifies over);
+    // what is checked here is the first half of the property: the built-in pools keep non-zero reserves
+    eng.check_backing = false;
+    let open = match eng.step(&rootn, &Action::Open) {
+        StepOut::Next(x) => x,
+        _ => return,
+    };
+    let mut outs = vec![];
+    for k in [PoolKey::new(Denom::Mel, Denom::Sym), PoolKey::new(Denom::Mel, Denom::Erg), PoolKey::new(Denom::Erg, Denom::Sym)] {
+        for a in [600_000_000u128, 400_000_000, 1_000_000_000] {
+            outs.push(out_t(a, k.liq_token_denom()));
+        }
+    }
+    for i in 0..12u128 {
+        outs.push(out_t(500 + i, Denom::Mel));
+    }
+    let f = tx_t(melstructs::TxKind::Faucet, vec![], outs, 0, b"unissued-liq".to_vec());
+    let start = match eng.step(&open, &Action::Batch { label: "faucet(liquidity tokens of the three built-in pools)".into(), txs: vec![f], expect_ok: true }) {
+        StepOut::Next(x) => x,
+        _ => {
+            run.outcome("unissued-liquidity:faucet-rejected");
+            return;
+        }
+    };
+    let mut cfg = cfg_liquidity();
+    cfg.swaps = false;
+    cfg.deposits = false;
+    cfg.mints = false;
+    cfg.max_txs_per_block = 3;
+    let acts = move |n: &Node| actions(n, &cfg);
+    let visit = |_n: &Node| {};
+    let st = bfs(&eng, vec![start], if thorough { 8 } else { 5 }, 300_000, &acts, &visit);
+    run.set("scenario:unissued-liquidity-tokens", json!({"depth_bound_completed": st.depth_completed, "unique_states": st.states, "transitions": st.transitions}));
+    println!("  scenario unissued-liquidity-tokens: depth {} states {} transitions {}", st.depth_completed, st.states, st.transitions);
+}
+
 pub fn run(run: &Run) {
+    unissued_liquidity_tokens(run, run.thorough());
     custom_pool_withdrawals(run, run.thorough());
     for sc in scenarios(run.thorough()) {
         sample_alphabet(run, &sc);
